@@ -30,7 +30,7 @@ pub fn prop() -> HistProp {
             long(p, t)
         },
         cfgs: cfg_strategy,
-        quick: 1500,
+        quick: 4000,
         thorough: 30000,
         mk: |_, _, o| Box::new(C06 { rec: (o.state.total_bond_bsei_amount.u128(), o.state.total_bond_stsei_amount.u128()), nontrivial: false }),
         extra: Some((4, |_| release_scenario_strategy(cfg_strategy()))),
